@@ -266,7 +266,18 @@ inline void install_fatal_handlers()
 // Run `body` in a forked child with a wall-clock limit; returns "ok", "signal:<NAME>", "timeout",
 // or "exit:<code>". The child may write up to `cap` bytes of result into the pipe via `out`.
 struct IsoResult { std::string status; std::string payload; };
+inline IsoResult isolated_once(std::function<void(std::string&)> body, double limit_s);
+inline long& isolated_rechecks() { static long n = 0; return n; }
+// A wall-clock expiry can be machine load: the (deterministic) body is run once more with a 15x limit and only a second
+// expiry is returned as "timeout".
 inline IsoResult isolated(std::function<void(std::string&)> body, double limit_s = 5.0)
+{
+    IsoResult r = isolated_once(body, limit_s);
+    if (r.status != "timeout") return r;
+    ++isolated_rechecks();
+    return isolated_once(body, limit_s * 15);
+}
+inline IsoResult isolated_once(std::function<void(std::string&)> body, double limit_s)
 {
     int fd[2];
     if (pipe(fd) != 0) return {"pipe-failed", ""};
@@ -342,6 +353,7 @@ inline int main_impl(int argc, char** argv)
     setvbuf(stdout, nullptr, _IOFBF, 1 << 16);
     groups()[ctx.group](ctx);
     ctx.san_take(ctx.group + "/<unattributed>");
+    if (isolated_rechecks()) ctx.counters["isolated_watchdog_expiries_rechecked"] += isolated_rechecks();
     ctx.print_summary();
     return 0;
 }
